@@ -409,6 +409,10 @@ pub fn run(ctx: &Ctx, rep: &mut Report) {
                     return;
                 }
                 let c = Case { budget, body_len: bodies[d[1] as usize], strat: strats[d[2] as usize], optset, start: starts[d[4] as usize], mtype, app_code };
+                if d[4] > 0 && d[5] > 1 {
+                    rep.count("skipped-type/code-variants-3-4-only-from-the-fresh-start-state");
+                    return;
+                }
                 if c.start == 4 && (d[2] % 4 != 0 || c.body_len > 3000) {
                     rep.count("skipped-burst-start-state-thinned");
                     return;
